@@ -61,6 +61,24 @@ fn main() {
             Ok(s) => format!("ok {}", q(&s)),
             Err(e) => format!("err {}", q(e)),
         },
+        "calcf" => {
+            // float mode: the bit pattern of what eval_float returns (every NaN printed as nan);
+            // a line without a dot: what run_calculator returns, as for "calc"
+            let line = dec(f[1]);
+            if !line.contains('.') {
+                return match core::run_calculator(&line) {
+                    Ok(s) => format!("ok {}", q(&s)),
+                    Err(e) => format!("err {}", q(e)),
+                };
+            }
+            match calculator::calculate(&line) {
+                Ok(mut calc) => {
+                    let v = calculator::eval_float(calc.next().unwrap().into_inner());
+                    if v.is_nan() { "f nan".to_string() } else { format!("f {:016x}", v.to_bits()) }
+                }
+                Err(_) => "err \"syntax error\"".to_string(),
+            }
+        }
         "try" => match core::verif_hooks::try_run_calculator(&dec(f[1]), true) {
             None => "none".to_string(),
             Some(cr) => {
